@@ -84,6 +84,7 @@ def snapshot(xknx):
     for dev in xknx.devices:
         for rv in dev._iter_remote_values():
             out[f"{dev.name}.{rv.feature_name}"] = repr(rv.value)
+            out[f"{dev.name}.{rv.feature_name}/payload"] = repr(rv.last_payload)      # what respond() / cooldown comparisons use
         for attr in ("state", "current_brightness", "current_color", "current_position", "current_angle", "current_speed", "resolve_state", "temperature",
                      "target_temperature", "operation_mode", "controller_mode", "is_on", "message", "last_telegram"):
             try:
